@@ -118,6 +118,11 @@ func allScenarios(tier string) []*Scenario {
 			for _, early := range []bool{false, true} {
 				ss.add(Scenario{Name: fmt.Sprintf("D2-split/%s/%s/er%s", sig, mt.String(), bools(early)), Signal: sig, S: 2, M: 2, Timeout: T, Early: early, SinkFail: !early,
 					Callers: []CallerSpec{{Label: "A", Reqs: []Shape{nested5(sig, mt)}}}})
+				if sig == "traces" {
+					// the same split under max_concurrency 1: three exports of one request queue behind one permit
+					ss.add(Scenario{Name: fmt.Sprintf("D2-split/%s/%s/er%s/k1", sig, mt.String(), bools(early)), Signal: sig, S: 2, M: 2, Timeout: T, Early: early, SinkFail: !early, K: 1,
+						Callers: []CallerSpec{{Label: "A", Reqs: []Shape{nested5(sig, mt)}}}})
+				}
 			}
 		}
 	}
